@@ -80,3 +80,32 @@ func init() {
 		return prevReadFull(fr, a)
 	})
 }
+
+// sync/atomic on plain integer cells (the interpreter is single-threaded: the operations are ordinary loads
+// and stores; what they synchronise is the business of the C19 lemmas).
+func init() {
+	for _, ty := range []string{"Int32", "Int64", "Uint32", "Uint64", "Uintptr"} {
+		ty := ty
+		conv := func(v value, like value) value {
+			// keep the Go type of the cell for concrete values
+			switch like.(type) {
+			case int32:
+				if x, ok := v.(int32); ok {
+					return x
+				}
+			}
+			return v
+		}
+		reg("sync/atomic.Load"+ty, func(fr *frame, a []value) value { return *(a[0].(*value)) })
+		reg("sync/atomic.Store"+ty, func(fr *frame, a []value) value { p := a[0].(*value); *p = conv(a[1], *p); return nil })
+		reg("sync/atomic.Swap"+ty, func(fr *frame, a []value) value { p := a[0].(*value); old := *p; *p = a[1]; return old })
+		reg("sync/atomic.CompareAndSwap"+ty, func(fr *frame, a []value) value {
+			p := a[0].(*value)
+			if fr.truth(symEquals(fr, nil, *p, a[1])) {
+				*p = a[2]
+				return true
+			}
+			return false
+		})
+	}
+}
